@@ -7,10 +7,11 @@
 EXTENDS Integers, Sequences, FiniteSets, TLC, Json
 CONSTANT MaxDepth
 Mains == {"for", "for3", "forrange", "forcond", "recursion", "mapcb", "eachcb", "filtercb", "sortedcb", "trycb",
-          "send", "recv", "chaniter", "sleep", "wait"}
-Blocking == {"send", "recv", "chaniter", "sleep", "wait"}     \* mains that tick only a few times before blocking
+          "tryhandler", "defercb",
+          "send", "recv", "chaniter", "sleep", "wait", "sendfull", "sendmeth", "sendfullmeth", "recvmeth", "iterbuf"}
+Blocking == {"send", "recv", "chaniter", "sleep", "wait", "sendfull", "sendmeth", "sendfullmeth", "recvmeth", "iterbuf"}     \* mains that tick only a few times before blocking
 SpawnForms == {"go", "spawn", "fnspawn"}
-CloneBodies == {"loop", "sleepy", "recv"}
+CloneBodies == {"loop", "sleepy", "recv", "sendfull", "sendthenloop"}
 Instants == {"deadline", "tick3", "tick40"}
 Trees == {[depth |-> 0, form |-> "none", body |-> "none"]}
          \cup [depth : 1..MaxDepth, form : SpawnForms, body : CloneBodies]
